@@ -114,6 +114,19 @@ def run(ctx):
             neg = [c for c in flat if c.op == "call" and B.cname(c) == "Neg::neg"]
             okp = any(c.op == "param" and c.a[1] == "w" for c in flat) and any(c.op == "param" and c.a[1] == "u" for c in flat) and len(neg) == 1 and len(comps) == 2
             ctx.ob("E5.valid", "valid/equation", okw and okp, "pairing input = %s (want {(w, -G), (compute_w(u, v, dst), u)})" % show(strip_sites(T_), 6), where=where(f))
+    # seal, open and the validity report of one scheme agree on the tag: under scheme V every entry point hands V's
+    # signature tag to the construction (an honest ciphertext of scheme V must report valid and decrypt)
+    from . import spec as SP
+
+    for fk_, sinks_ in (("PublicKey<C>::sign_crypt", ("BlsSignCrypt::seal",)), ("SignCryptCiphertext<C>::is_valid", ("BlsSignCrypt::valid",)), ("SignCryptCiphertext<C>::decrypt", ("BlsSignCrypt::unseal",)), ("SignCryptDecryptionKey<C>::decrypt", ("BlsSignCrypt::valid",))):
+        g_ = ctx.need_fn("E2.tag-by-scheme", fk_)
+        if g_ is not None:
+            k_ = SP.check_tag_by_scheme(ctx, "E2.tag-by-scheme", P, g_, sinks_, -1, purpose="sig")
+            ctx.ob("E2.tag-by-scheme", fk_ + "/all-schemes", k_ >= 3, "%s selects the tag for %s by the scheme in %d of 3 schemes" % (fk_, sinks_[0], k_), where=where(g_))
+    # abort-freedom of the opening path: an altered ciphertext yields nothing, it does not abort
+    from . import aborts as A
+
+    A.check_aborts(ctx, "E8", P, ["SignCryptCiphertext<C>::decrypt", "SignCryptCiphertext<C>::is_valid", "SignCryptDecryptionKey<C>::decrypt"], scope="C11")
     # compute_w: hash_to_point(to_bytes(u) ‖ v, dst)
     f = ctx.need_fn("E5.w", "BlsSignCrypt::compute_w")
     if f is not None:
